@@ -28,6 +28,8 @@ void harness (void)
     if (in_t <= 255u * 255u)
     {
         unsigned q = DIV_ONE_UN8 (in_t);
+        unsigned q2 = SP_RND255 ((int) in_t);
+        VH_CHECK ("lemma.SP_RND255_is_round_to_nearest", 510u * q2 <= 2u * in_t + 255u && 2u * in_t + 255u < 510u * q2 + 510u);
         VH_CHECK ("macro.DIV_ONE_UN8_round_to_nearest", 510u * q <= 2u * in_t + 255u && 2u * in_t + 255u < 510u * q + 510u);
     }
     {
